@@ -34,6 +34,11 @@ for i in range(1, 17):
     if extra.exists():
         out.append("\n" + demote(extra.read_text().strip()) + "\n")
 
+for extra_name in ("CERT", "C01G", "TIE"):
+    f = D / f"{extra_name}.md"
+    if f.exists():
+        out.append("\n" + demote(f.read_text().strip()) + "\n")
+
 k = json.loads((V / "known_findings.json").read_text())
 out.append("\n---------------------------------------------------------------------------------------------------\n\n## 5. Defects found on the unchanged tree\n")
 out.append("Each was reproduced against the real code with a concrete witness. Repaired defects are one\n`fix:` commit each in /repo (the repository's 5120 stable tests pass at the final HEAD); a `fixed`\nentry suppresses nothing — every check passes on the repaired tree without a KNOWN-FINDING line for\nit and reports the violation again if it returns.\n\n**Fixed**\n")
